@@ -16,7 +16,6 @@ class FileLoader(IFileLoader):
 		"""
 		self.__env_paths = env_paths
 		self.__hashs: dict[str, str] = {}
-		self.__mtimes: dict[str, float] = {}
 
 	@implements
 	def exists(self, filepath: str) -> bool:
@@ -64,10 +63,8 @@ class FileLoader(IFileLoader):
 		if found_filepath is None:
 			raise FileNotFoundError(f'No such file or directory. filepath: {filepath}')
 
-		if found_filepath not in self.__mtimes:
-			self.__mtimes[found_filepath] = os.path.getmtime(found_filepath)
-
-		return self.__mtimes[found_filepath]
+		# XXX 実行中にファイルが更新された場合に古い構文木キャッシュを参照し続けない様に、更新日時は都度取得する
+		return os.path.getmtime(found_filepath)
 
 	@implements
 	def hash(self, filepath: str) -> str:
